@@ -184,3 +184,41 @@ Theorem C03_paragraph_content_lines :
     /\ (0 <= b_blkIndent st -> pieces st nl false sl raw).
 Proof. exact paragraph_inline_lines. Qed.
 Print Assumptions C03_paragraph_content_lines.
+
+(* ---- no non-blank line is skipped: the line loop covers the input --------------------------------------- *)
+From MD Require Import Lemmas.NoRaise Lemmas.MapOrder Lemmas.Cover.
+
+(* For EVERY source, env and configuration with the paragraph rule (terminator chains as the Ruler compiles them,
+   0 < maxNesting): what ParserBlock.parse appends is a sequence of segments, one per successful rule call, over line
+   ranges [a, b) that increase and do not overlap and contain every map of their tokens (cseg implies oseg), and every
+   line BEFORE the first range, BETWEEN two ranges and AFTER the last one up to lineMax is blank for the line tables
+   of the source ([blank]: StateBlock.isEmpty does not answer False).  The segment of a reference definition is
+   empty: its lines are covered by the range of the call that recorded it in env. *)
+Theorem C03_block_parse_covers :
+  forall cfg rf cf src env toks st,
+    term_names_ok cfg -> mem_str nm_paragraph (c_rules cfg) = true -> 0 < c_maxNesting cfg ->
+    block_parse cfg rf cf src env toks = Ok st ->
+    let s0 := state_init src env toks in
+    exists seg, b_tokens st = toks ++ seg /\ cseg (blank s0) 0 (b_lineMax s0) seg.
+Proof. exact block_parse_cover. Qed.
+Print Assumptions C03_block_parse_covers.
+
+(* what cseg gives, line by line: blank, or inside the line range of a rule call *)
+Theorem C03_covered_line_by_line :
+  forall (B : Z -> Prop) lo hi seg, cseg B lo hi seg ->
+    forall l, lo <= l < hi -> B l \/ exists a b, a <= l < b /\ lo <= a /\ b <= hi.
+Proof. exact cseg_covers. Qed.
+Print Assumptions C03_covered_line_by_line.
+
+(* ... and the ranges are ordered with all maps inside (the statement of C03_block_parse_ordered) *)
+Theorem C03_covered_is_ordered : forall (B : Z -> Prop) lo hi seg, cseg B lo hi seg -> oseg lo hi seg.
+Proof. exact cseg_oseg. Qed.
+Print Assumptions C03_covered_is_ordered.
+
+(* the definition, for reading: blank = isEmpty(line) is not False; cseg = nil | range then rest *)
+Definition C03_cover_means :
+  (forall st l, blank st l <-> is_empty st l <> Ok false)
+  /\ (forall (B : Z -> Prop) lo hi, lo <= hi -> (forall l, lo <= l < hi -> B l) -> cseg B lo hi [])
+  /\ (forall (B : Z -> Prop) lo hi a b seg rest, lo <= a -> a < b -> (forall l, lo <= l < a -> B l) -> Forall (map_in a b) seg ->
+        cseg B b hi rest -> cseg B lo hi (seg ++ rest))
+  := conj (fun st l => conj (fun x => x) (fun x => x)) (conj cseg_nil cseg_cons).
